@@ -1,4 +1,5 @@
 import bisync
+import oneway
 import libchecks
 
 CHECKS = {
@@ -7,7 +8,11 @@ CHECKS = {
     "C07": bisync.c07,
     "C08": bisync.c08,
     "C01": libchecks.c01,
+    "C04": oneway.c04,
     "C05": libchecks.c05,
+    "C09": oneway.c09,
+    "C14": oneway.c14,
+    "C15": oneway.c15,
     "C16": libchecks.c16,
     "C17": libchecks.c17,
     "C18": libchecks.c18,
